@@ -283,7 +283,9 @@ def c17_create(rec, rng, thorough):
         e = dict(ev="py_create", abc="protein" if protein else "dna", K=k, seqs=seqs, expect=expect)
 
         def run():
-            mo = lightmotif.create(texts, protein=protein)
+            # the sequences arrive as a list, a tuple, a generator or a plain iterator (one-shot iterables included)
+            arg = [texts, tuple(texts), (t for t in texts), iter(texts)][it % 4]
+            mo = lightmotif.create(arg, protein=protein)
             return (rows_of(mo.counts, len(mo.counts)),
                     [[quant(x, 4096) for x in row] for row in rows_of(mo.pwm, len(mo.pwm))],
                     [[quant(x, 1024) for x in row] for row in rows_of(mo.pssm, len(mo.pssm))],
